@@ -74,3 +74,6 @@ where
         self.allocator.clear();
     }
 }
+
+#[cfg(feature = "verif-hooks")]
+mod verif;
